@@ -9,6 +9,7 @@ open TinyVerif TinyVerif.Io
   rex  <orig-hex> <reader tokens..>
   wall <data-hex> <writer tokens..>
   wfmt <variant 0|1> <items s<hex>|f ..> / <writer tokens..>
+  prt  <kind p|P|e|E|d> <tpl> [h<hex>] <items s<hex>|g<len>.<seed>|f|n<int> ..> [, ..] / <kernel tokens a<k> o i e<errno>>
 
   reader tokens: d<hex> D<hex> (data; D = known to exceed what is offered) z (eof) i (EINTR) e<errno> u
   writer tokens: a<k> A<k> (accept k; A = known to exceed what is offered) i e<errno> u
@@ -131,6 +132,111 @@ def runWfmt (detail : Bool) : List String → String
     | _, _ => "bad-op"
   | _ => "bad-op"
 
+/-! ### the print macros (unix/print.rs) -/
+
+def parseK (tok : String) : Option WResp :=
+  match tok.toList with
+  | ['i'] => some .eintr
+  | ['o'] => some (.accept 0)
+  | 'e' :: cs => (natOf cs).map .err
+  | 'a' :: cs => (natOf cs).map .accept
+  | 'A' :: cs => (natOf cs).map .accept
+  | _ => none
+
+def strBytes (s : String) : List Nat := s.toUTF8.toList.map (·.toNat)
+
+/-- one macro argument as written on the line: optional dbg! header, the `write_str` items, an optional integer -/
+structure PArg where
+  hdr : Option (List Nat) := none
+  items : List FmtItem := []
+  num : Option Int := none
+
+def parsePItem (a : PArg) (tok : String) : Option PArg :=
+  match tok.toList with
+  | ['f'] => some { a with items := a.items ++ [.fail] }
+  | 's' :: cs => if cs.isEmpty then none else (Drv.unhex (String.ofList cs)).map fun bs => { a with items := a.items ++ [.str bs] }
+  | 'h' :: cs => if cs.isEmpty || a.hdr.isSome || !a.items.isEmpty then none else (Drv.unhex (String.ofList cs)).map fun bs => { a with hdr := some bs }
+  | 'g' :: cs =>
+    match (String.ofList cs).splitOn "." with
+    | [l, sd] =>
+      match l.toNat?, sd.toNat? with
+      | some l, some sd => if l > 200000 then none else some { a with items := a.items ++ [.str (genBytes l sd)] }
+      | _, _ => none
+    | _ => none
+  | 'n' :: cs => if a.num.isSome then none else (String.ofList cs).toInt?.map fun n => { a with num := some n }
+  | _ => none
+
+def parsePArgs : List String → PArg → Option (List PArg)
+  | [], cur => some [cur]
+  | "," :: rest, cur => (parsePArgs rest {}).map (cur :: ·)
+  | t :: rest, cur => (parsePItem cur t).bind (parsePArgs rest)
+
+/-- `Display for i64` without flags: an optional `-` then the digits, one `write_str` each -/
+def intPieces (n : Int) : List FmtItem :=
+  if n < 0 then [.str (strBytes "-"), .str (strBytes (toString n.natAbs))] else [.str (strBytes (toString n.natAbs))]
+
+/-- the `write_str` pieces `fmt::write` issues for a template: literal segments interleaved with the arguments' items -/
+def tplPieces (tpl : String) (args : List PArg) : Option (List FmtItem) :=
+  let plain (a : PArg) : Bool := a.hdr.isNone && a.num.isNone
+  match tpl, args with
+  | "a", [a] => if plain a then some a.items else none
+  | "b", [a, b] => if plain a && plain b then
+      some ([.str (strBytes "id=")] ++ a.items ++ [.str (strBytes " payload=")] ++ b.items ++ [.str (strBytes " end")]) else none
+  | "c", [a, b] => if plain a && plain b then
+      some ([.str (cycBytes 255)] ++ a.items ++ [.str (cycBytes 256)] ++ b.items ++ [.str (cycBytes 257)]) else none
+  | "d", [a, b] => if plain a && plain b then
+      some ([.str (strBytes "x")] ++ a.items ++ [.str (cycBytes 4096)] ++ b.items) else none
+  | "l", [a] => if plain a && a.items.isEmpty then some [.str (cycBytes 300)] else none
+  | "s", [a] => if plain a && a.items.isEmpty then some [.str (strBytes "done")] else none
+  | "g", [a] =>
+    match a.hdr, a.num, a.items with
+    | none, some n, [.str bs] => some ([.str (strBytes "n=")] ++ intPieces n ++ [.str (strBytes " s="), .str bs])
+    | _, _, _ => none
+  | _, _ => none
+
+/-- the sequence of macro expansions (newline?, pieces) a `prt` line stands for, and the descriptor -/
+def prtPlan (kind tpl : String) (args : List PArg) : Option (List (Bool × List FmtItem)) :=
+  let empty1 : Bool := match args with
+    | [a] => a.hdr.isNone && a.num.isNone && a.items.isEmpty
+    | _ => false
+  match kind with
+  | "d" =>
+    match tpl, args with
+    | "n", [a] => match a.hdr, a.num, a.items with
+      | some h, none, [] => some [(true, [.str h])]
+      | _, _, _ => none
+    | "a", [a] => match a.hdr, a.num with
+      | some h, none => some [(true, .str h :: a.items)]
+      | _, _ => none
+    | "b", [a, b] => match a.hdr, a.num, b.hdr, b.num with
+      | some h, none, some h2, none => some [(true, .str h :: a.items), (true, .str h2 :: b.items)]
+      | _, _, _, _ => none
+    | _, _ => none
+  | _ =>
+    let ln := kind == "P" || kind == "E"
+    if !(kind == "p" || kind == "P" || kind == "e" || kind == "E") then none else
+    if tpl == "n" then
+      if !empty1 then none else
+      -- `println!()` is the newline alone; `print!("")` is one `write_str("")`
+      some [(ln, if ln then [] else [.str []])]
+    else (tplPieces tpl args).map fun ps => [(ln, ps)]
+
+def runPrt (detail : Bool) : List String → String
+  | kind :: tpl :: rest =>
+    match splitSlash rest with
+    | (items, some kt) =>
+      match parsePArgs items {}, parseAll parseK kt with
+      | some args, some script =>
+        match prtPlan kind tpl args with
+        | some plan =>
+          let o := printSeq plan script
+          let fd := if o.log.isEmpty then "-" else if kind == "p" || kind == "P" then "1" else "2"
+          s!"done sink={Drv.hex o.sink} used={o.used} fd={fd}" ++ tailLog detail o.log
+        | none => "bad-op"
+      | _, _ => "bad-op"
+    | _ => "bad-op"
+  | _ => "bad-op"
+
 def step (detail : Bool) (_ : Unit) (line : String) : Unit × String :=
   let out : String :=
     match Drv.words line with
@@ -139,6 +245,7 @@ def step (detail : Bool) (_ : Unit) (line : String) : Unit × String :=
     | "rex" :: rest => runRex detail rest
     | "wall" :: rest => runWall detail rest
     | "wfmt" :: rest => runWfmt detail rest
+    | "prt" :: rest => runPrt detail rest
     | _ => "bad-op"
   ((), out)
 
